@@ -39,8 +39,6 @@ int __real_pthread_spin_lock(pthread_spinlock_t *);
 int __real_pthread_spin_unlock(pthread_spinlock_t *);
 int __real_pthread_create(pthread_t *, const pthread_attr_t *, void *(*)(void *), void *);
 int __real_pthread_join(pthread_t, void **);
-ssize_t __real_read(int, void *, size_t);
-ssize_t __real_write(int, const void *, size_t);
 
 /* ------------------------------------------------------------------ lock table */
 #define NLOCK 256
@@ -319,16 +317,15 @@ int sched_block_wait(struct vk_wait *w)
 	block2(S_BLK_WAIT, "wait");
 	return VK_RETRY;
 }
-ssize_t __wrap_read(int fd, void *buf, size_t n)
+void sched_io_pre(int is_write, int fd, size_t n)
 {
-	if (sched_active && my_slot >= 0) sched_point("read");
-	return __real_read(fd, buf, n);
+	(void)n;
+	if (is_write && (fd <= 2 || fd == vz_res_fd)) return;     /* harness output, not scenario I/O */
+	if (sched_active && my_slot >= 0) sched_point(is_write ? "write" : "read");
 }
-ssize_t __wrap_write(int fd, const void *buf, size_t n)
+void sched_io_post(int is_write, int fd, ssize_t r)
 {
-	int mine = fd <= 2 || fd == vz_res_fd;     /* harness output, not scenario I/O */
-	if (sched_active && my_slot >= 0 && !mine) sched_point("write");
-	ssize_t r = __real_write(fd, buf, n);
-	if (sched_active && my_slot >= 0 && !mine) { int e = errno; sched_point("write-done"); errno = e; }
-	return r;
+	(void)r;
+	if (is_write && (fd <= 2 || fd == vz_res_fd)) return;
+	if (sched_active && my_slot >= 0) sched_point("write-done");
 }
